@@ -621,8 +621,10 @@ class _SetOperation(Selectable, Term):  # type:ignore[misc]
         if self._orderbys:
             querystring += self._orderby_sql(ctx)
 
-        querystring += self._limit_sql(ctx)
-        querystring += self._offset_sql(ctx)
+        # row limiting follows the dialect of the base query's builder class (LIMIT/OFFSET, OFFSET..FETCH NEXT, ...)
+        pager = copy(self.base_query)
+        pager._limit, pager._offset, pager._orderbys = self._limit, self._offset, self._orderbys
+        querystring = pager._apply_pagination(querystring, ctx)
 
         if ctx.subquery:
             querystring = "({query})".format(query=querystring)
